@@ -38,14 +38,14 @@ static int_t report(int_t jcol) {   /* a zero pivot in column jcol (or none): tr
   return r;
 }
 int_t p@p@gstrf_factor_snode(const int_t pnum, const int_t jcol, SuperMatrix *A, const @R@ u, yes_no_t *usepr, int_t *perm_r, int_t *inv_perm_r, int_t *inv_perm_c, int_t *xprune, int_t *marker, int_t *col_lsub, @T@ *dense, @T@ *tempv, pxgstrf_shared_t *sh, int_t *info)
-{ __CPROVER_assert(usepr == &in_o.usepr, "the pivot step gets the SHARED reuse flag of the options, so that dropping pivot reuse is seen by every thread (C08)"); g_calls++; *info = report(jcol + (nondet_int_t() ? 0 : in_pan[jcol].size - 1)); return 0; }
+{ __CPROVER_assert(u == in_o.diag_pivot_thresh || (u != u && in_o.diag_pivot_thresh != in_o.diag_pivot_thresh), "the pivot step gets the caller's threshold options->diag_pivot_thresh unchanged (C02/C16: a threshold of 0 stays 0, so a nonzero diagonal is always accepted; a threshold of 1 stays partial pivoting)"); __CPROVER_assert(usepr == &in_o.usepr, "the pivot step gets the SHARED reuse flag of the options, so that dropping pivot reuse is seen by every thread (C08)"); g_calls++; *info = report(jcol + (nondet_int_t() ? 0 : in_pan[jcol].size - 1)); return 0; }
 void pxgstrf_mark_busy_descends(int_t pnum, int_t jcol, int_t *etree, pxgstrf_shared_t *sh, int_t *bcol, int_t *lbusy) { __CPROVER_assert(g_fill_lbusy && g_fill_marker, "stamp arrays lbusy / marker were reset to EMPTY over all their entries before the first panel is processed (C18: nothing left in the work space by earlier calls is read)"); __CPROVER_assert(lbusy == pool_lbusy, "busy-descendant stamps are the thread's own"); }
 void p@p@gstrf_panel_dfs(const int_t a, const int_t b, const int_t c, const int_t d, SuperMatrix *A, int_t *p1, int_t *p2, int_t *p3, int_t *p4, int_t *nseg, int_t *p6, int_t *p7, int_t *p8, int_t *p9, int_t *p10, int_t *p11, int_t *p12, int_t *p13, @T@ *dn, GlobalLU_t *G) { __CPROVER_assert(g_fill_lbusy && g_fill_marker, "stamp arrays lbusy / marker were reset to EMPTY over all their entries before the first panel is processed (C18: nothing left in the work space by earlier calls is read)"); *nseg = 0; }
 void p@p@gstrf_panel_bmod(const int_t a, const int_t b, const int_t c, const int_t d, const int_t e, int_t *p1, int_t *p2, int_t *p3, int_t *p4, int_t *p5, int_t *p6, int_t *p7, int_t *p8, @T@ *d1, @T@ *d2, pxgstrf_shared_t *sh) { }
 void pxgstrf_super_bnd_dfs(const int_t a, const int_t b, const int_t c, const int_t d, const int_t e, SuperMatrix *A, int_t *p1, int_t *p2, int_t *p3, int_t *p4, int_t *p5, int_t *p6, int_t *p7, pxgstrf_shared_t *sh) { }
 int_t p@p@gstrf_column_dfs(const int_t a, const int_t b, const int_t c, const int_t d, int_t *p1, int_t *p2, int_t *p3, int_t e, int_t *p4, int_t *p5, int_t *p6, int_t *p7, int_t *p8, int_t *p9, int_t *p10, int_t *p11, pxgstrf_shared_t *sh) { return 0; }
 int_t p@p@gstrf_column_bmod(const int_t a, const int_t b, const int_t c, const int_t d, int_t *p1, int_t *p2, @T@ *d1, @T@ *d2, pxgstrf_shared_t *sh, Gstat_t *G) { return 0; }
-int_t p@p@gstrf_pivotL(const int_t pnum, const int_t jcol, const @R@ u, yes_no_t *usepr, int_t *perm_r, int_t *inv_perm_r, int_t *inv_perm_c, int_t *pivrow, GlobalLU_t *Glu, Gstat_t *Gs) { __CPROVER_assert(usepr == &in_o.usepr, "the pivot step gets the SHARED reuse flag of the options, so that dropping pivot reuse is seen by every thread (C08)"); g_calls++; *pivrow = 0; return report(jcol); }
+int_t p@p@gstrf_pivotL(const int_t pnum, const int_t jcol, const @R@ u, yes_no_t *usepr, int_t *perm_r, int_t *inv_perm_r, int_t *inv_perm_c, int_t *pivrow, GlobalLU_t *Glu, Gstat_t *Gs) { __CPROVER_assert(u == in_o.diag_pivot_thresh || (u != u && in_o.diag_pivot_thresh != in_o.diag_pivot_thresh), "the pivot step gets the caller's threshold options->diag_pivot_thresh unchanged (C02/C16: a threshold of 0 stays 0, so a nonzero diagonal is always accepted; a threshold of 1 stays partial pivoting)"); __CPROVER_assert(usepr == &in_o.usepr, "the pivot step gets the SHARED reuse flag of the options, so that dropping pivot reuse is seen by every thread (C08)"); g_calls++; *pivrow = 0; return report(jcol); }
 int_t p@p@gstrf_copy_to_ucol(const int_t a, const int_t b, const int_t c, const int_t *p1, const int_t *p2, const int_t *p3, @T@ *d, pxgstrf_shared_t *sh) { return 0; }
 void pxgstrf_pruneL(const int_t a, const int_t *p1, const int_t b, const int_t c, const int_t *p2, const int_t *p3, int_t *p4, int_t *p5, GlobalLU_t *G) { }
 void pxgstrf_resetrep_col(const int_t a, const int_t *p1, int_t *p2) { }
